@@ -254,7 +254,7 @@ def _legacy_cases():
         rng.shuffle(allc)
         emp = allc[:rng.randrange(0, len(allc) + 1)]
         return {"width": w, "height": h, "torus": a["torus"], "_grid": cells, "_empties_built": rng.random() < 0.6,
-                "_empties": emp, "_empty_mask": [[rng.random() < 0.5 for _ in range(h)] for _ in range(w)]}
+                "_empties": emp, "_empty_mask": [[rng.random() < 0.5 for _ in range(h)] for _ in range(w)], "_neighborhood_cache": []}
 
     def gen_mut(rng):
         sp = gen_space(rng)
@@ -262,6 +262,16 @@ def _legacy_cases():
         uid = rng.randrange(1, 9)
         return {"self": sp, "pos": pos(rng, a, 0.0),
                 "agent": {"unique_id": uid, "pos": None if rng.random() < 0.3 else pos(rng, a, 0.0)}}
+
+    def gen_move(rng):
+        """targets also outside the grid (torus_adj wraps / rejects them); the agent stands where its `pos` says, or nowhere"""
+        a = gen_mut(rng)
+        d = {"w": a["self"]["width"], "h": a["self"]["height"]}
+        a["pos"] = pos(rng, d, 0.3)
+        if a["agent"]["pos"] is not None and rng.random() < 0.8:
+            x, y = a["agent"]["pos"]
+            a["self"]["_grid"][x][y] = a["agent"]["unique_id"]
+        return a
 
     def space(a):
         import numpy as np
@@ -294,7 +304,11 @@ def _legacy_cases():
             with warnings.catch_warnings():
                 warnings.simplefilter("ignore")
                 try:
-                    res = getattr(g, name)(ag, a["pos"]) if name != "remove_agent" else g.remove_agent(ag)
+                    if name == "_Grid.move_agent":
+                        from mesa.space import _Grid
+                        res = _Grid.move_agent(g, ag, a["pos"])
+                    else:
+                        res = getattr(g, name)(ag, a["pos"]) if name != "remove_agent" else g.remove_agent(ag)
                 except Exception as e:       # noqa: BLE001
                     res = map_exc(e)
             return (res, *after(a, g, ag)) if name != "remove_agent" else after(a, g, ag)
@@ -307,6 +321,8 @@ def _legacy_cases():
             "_Grid.is_cell_empty": (lambda rng: {k: v for k, v in gen_mut(rng).items() if k != "agent"},
                                     lambda a: bool(space(a)[0].is_cell_empty(a["pos"]))),
             "SingleGrid.place_agent": (gen_mut, call_mut("place_agent")),
+            "_Grid.move_agent": (gen_move, call_mut("_Grid.move_agent")),
+            "SingleGrid.move_agent": (gen_move, call_mut("move_agent")),
             "SingleGrid.remove_agent": (lambda rng: {k: v for k, v in gen_mut(rng).items() if k != "pos"}, call_mut("remove_agent"))}
 
 
